@@ -137,6 +137,41 @@ func same(a, b dirmodel.Observation, dirs map[string]bool) (bool, string) {
 	return true, ""
 }
 
+// pacedFS pauses after every system call (also between the open/truncate and the write of an
+// in-place rewrite), so that the watcher keeps up after each of them: the real counterpart of
+// the model's eager default order.
+type pacedFS struct{ pace time.Duration }
+
+func (p pacedFS) nap() { time.Sleep(p.pace) }
+func (p pacedFS) WriteFile(path string, d []byte, m os.FileMode) error {
+	f, err := os.OpenFile(path, os.O_WRONLY|os.O_CREATE|os.O_TRUNC, m)
+	if err != nil {
+		return err
+	}
+	p.nap()
+	_, err = f.Write(d)
+	p.nap()
+	if cerr := f.Close(); err == nil {
+		err = cerr
+	}
+	return err
+}
+func (p pacedFS) Rename(o, n string) error    { defer p.nap(); return os.Rename(o, n) }
+func (p pacedFS) Remove(x string) error       { defer p.nap(); return os.Remove(x) }
+func (p pacedFS) RemoveAll(x string) error {
+	// entry by entry, like rm -r
+	ents, _ := os.ReadDir(x)
+	for _, e := range ents {
+		_ = p.RemoveAll(filepath.Join(x, e.Name()))
+	}
+	defer p.nap()
+	return os.Remove(x)
+}
+func (p pacedFS) Mkdir(x string, m os.FileMode) error { defer p.nap(); return os.Mkdir(x, m) }
+func (p pacedFS) Link(o, n string) error              { defer p.nap(); return os.Link(o, n) }
+func (p pacedFS) Symlink(o, n string) error           { defer p.nap(); return os.Symlink(o, n) }
+func (p pacedFS) CreateEmpty(x string) error          { defer p.nap(); return fsops.RealFS{}.CreateEmpty(x) }
+
 func replay(in Input) ReplayOut {
 	var out ReplayOut
 	deadline := time.Duration(in.DeadlineMs) * time.Millisecond
@@ -157,12 +192,13 @@ func replay(in Input) ReplayOut {
 		_ = cache.ListDevices()
 		applicable := true
 		for i, op := range h {
-			if err := fsops.Apply(fsops.RealFS{}, root, op, i); err != nil {
+			var fs fsops.FS = fsops.RealFS{}
+			if in.PaceMs > 0 {
+				fs = pacedFS{time.Duration(in.PaceMs) * time.Millisecond}
+			}
+			if err := fsops.Apply(fs, root, op, i); err != nil {
 				applicable = false
 				break
-			}
-			if in.PaceMs > 0 {
-				time.Sleep(time.Duration(in.PaceMs) * time.Millisecond)
 			}
 		}
 		start := time.Now()
